@@ -1183,11 +1183,16 @@ class VM:
             # Check own property
             if obj.has(key_str):
                 return obj.get(key_str)
+            if key_str in obj._setters:
+                return UNDEFINED  # accessor without a getter
             # Check prototype chain
             proto = getattr(obj, "_prototype", None)
             while proto is not None:
-                if isinstance(proto, JSObject) and proto.has(key_str):
-                    return proto.get(key_str)
+                if isinstance(proto, JSObject):
+                    if proto.has(key_str):
+                        return proto.get(key_str)
+                    if key_str in proto._setters:
+                        return UNDEFINED
                 proto = getattr(proto, "_prototype", None)
             # Built-in Object methods as fallback
             if key_str in ("toString", "hasOwnProperty"):
